@@ -164,10 +164,50 @@ void run_far(const Case &c, pbt::Ctx &ctx) {
     }
 }
 
+// form 7: the escape at the end of the second of two huge strings (0.3 M units + an escape, then 5 M units + the escape + 'z'): the
+// parser's scratch stream is already large when a run several times its capacity arrives
+template <typename Char_T>
+void run_huge(const Case &c, pbt::Ctx &ctx) {
+    const size_t n1 = 300000 + (c.cp % 1000), n2 = 5000000 + (c.cp % 4096);
+    std::string  doc = "[\"";
+    doc.append(n1, 'a');
+    doc += "\\u00e9\",\"";
+    doc.append(n2, 'b');
+    doc += escape_text(c.cp, 3);
+    doc += "z\"]";
+    Char_T *buf = static_cast<Char_T *>(malloc(doc.size() * sizeof(Char_T)));
+    for (size_t i = 0; i < doc.size(); ++i) {
+        buf[i] = Char_T((unsigned char)doc[i]);
+    }
+    Value<Char_T> v = JSON::Parse(buf, SizeT(doc.size()));
+    free(buf);
+    if (!v.IsArray() || v.Size() != 2 || v.GetValue(1) == nullptr || !v.GetValue(1)->IsString()) {
+        ctx.fail("escape-rejected", "two huge strings with \\u escapes were not parsed to [string, string]");
+    }
+    const Value<Char_T>  *s      = v.GetValue(1);
+    std::vector<uint32_t> expect = ref_encode(c.cp, int(sizeof(Char_T)));
+    const size_t          want   = n2 + expect.size() + 1;
+    bool                  ok     = size_t(s->Length()) == want;
+    for (size_t i = 0; ok && i < n2; ++i) {
+        ok = unit(s->StringStorage()[i]) == 'b';
+    }
+    for (size_t i = 0; ok && i < expect.size(); ++i) {
+        ok = unit(s->StringStorage()[n2 + i]) == expect[i];
+    }
+    ok = ok && unit(s->StringStorage()[want - 1]) == 'z';
+    if (!ok) {
+        ctx.deviation("encoding-mismatch-huge-strings", "the second string (5 M units, the escape, 'z') came back with length " + std::to_string(s->Length()) + " or other content");
+    }
+}
+
 template <typename Char_T>
 void run_width(const Case &c, pbt::Ctx &ctx) {
     if (c.form == 6) {
         run_far<Char_T>(c, ctx);
+        return;
+    }
+    if (c.form == 7) {
+        run_huge<Char_T>(c, ctx);
         return;
     }
     std::vector<uint32_t> expect = ref_encode(c.cp, int(sizeof(Char_T)));
@@ -319,7 +359,7 @@ struct H {
         if (c.cp > 0x7F || c.form != 0) {
             ctx.nontrivial();
         }
-        ctx.label(c.form == 0 ? "direct" : c.form == 1 ? "escape-upper" : c.form == 2 ? "escape-lower" : c.form == 3 ? "escape-embedded-mixed" : c.form == 4 ? "escape-deep-in-a-long-string" : c.form == 5 ? "escape-in-a-run-of-escapes" : "escape-in-a-far-document");
+        ctx.label(c.form == 0 ? "direct" : c.form == 1 ? "escape-upper" : c.form == 2 ? "escape-lower" : c.form == 3 ? "escape-embedded-mixed" : c.form == 4 ? "escape-deep-in-a-long-string" : c.form == 5 ? "escape-in-a-run-of-escapes" : c.form == 6 ? "escape-in-a-far-document" : "escape-behind-huge-strings");
         ctx.label(c.cp < 0x80 ? "ascii" : c.cp < 0x800 ? "2-byte-range" : c.cp < 0x10000 ? "bmp" : "astral");
         switch (c.width) {
             case 1: run_width<char>(c, ctx); break;
@@ -333,6 +373,24 @@ struct H {
     static void enumerate(pbt::Ctx &ctx, unsigned shard, unsigned nshards, const std::string &what) {
         uint32_t step = (what == "all") ? 1 : 97;
         uint64_t idx  = 0;
+        {   // six scalars behind two huge strings (form 7), spread over the shards
+            static const uint32_t six[] = {0xE9, 0x1F600, 0xFFFF, 0x10000, 0x800, 0x7F};
+            unsigned              k     = 0;
+            for (uint32_t cp : six) {
+                for (int width : {1, 2, 4}) {
+                    if ((k++ % nshards) != shard) {
+                        continue;
+                    }
+                    Case c;
+                    c.cp    = cp;
+                    c.width = width;
+                    c.form  = 7;
+                    if (pbt::exec_case<H>(ctx, c) == pbt::Status::Fail) {
+                        return;
+                    }
+                }
+            }
+        }
         for (uint32_t cp = 0; cp <= 0x10FFFF; cp += step) {
             if (cp >= 0xD800 && cp <= 0xDFFF) {
                 continue;
